@@ -21,6 +21,12 @@ Definition vge (v : qvec) (x : Q) : bvec := fun c => Qle_bool x (v c).
 Definition vle (v : qvec) (x : Q) : bvec := fun c => Qle_bool (v c) x.
 Definition vgt (v : qvec) (x : Q) : bvec := fun c => negb (Qle_bool (v c) x).
 Definition vlt (v : qvec) (x : Q) : bvec := fun c => negb (Qle_bool x (v c)).
+(** the same comparisons when the scalar may be infinite (a range end point float("-inf") / float("inf")): IEEE order against a finite v *)
+Inductive xq := XNegInf | XFin (q : Q) | XPosInf.
+Definition vgex (v : qvec) (x : xq) : bvec :=
+  fun c => match x with XNegInf => true | XFin q => Qle_bool q (v c) | XPosInf => false end.
+Definition vlex (v : qvec) (x : xq) : bvec :=
+  fun c => match x with XNegInf => false | XFin q => Qle_bool (v c) q | XPosInf => true end.
 Definition vabs (v : qvec) : qvec := fun c => Qabs (v c).
 Definition vsub (a b : qvec) : qvec := fun c => (a c - b c)%Q.
 
